@@ -3,4 +3,4 @@
 diff=$1; prop=$2; shift 2
 cd /root/rdev2 && git checkout -q -- . && git apply $diff || exit 3
 cd /root/vdev && SYMGO_VERIF=/root/vdev SYMGO_NOEVIDENCE=1 SYMGO_REPO=/root/rdev2 ./bin/symgo check -prop $prop "$@" 2>&1 | grep -E "^(VIOLATION|INCONCLUSIVE|UNCONFIRMED|KNOWN|property=|harness )" | cut -c1-420
-cd /root/rdev2 && git checkout -q -- . && git status --short
+cd /root/rdev2 && git checkout -q -- . && git clean -fdq && git status --short
